@@ -315,7 +315,15 @@ def run_user(case):
 
     def validator(x):
         raise the_exc
-    if where == 'body':
+
+    class ReprRaises:
+        def __repr__(self):
+            raise the_exc
+    if where == 'repr':
+        hint = int                    # the object fails the hint: building the violation message calls its repr()
+    elif where == 'repr_nested':
+        hint = List[int]
+    elif where == 'body':
         hint = int
     elif where == 'hook':
         hint = Hooked
@@ -334,7 +342,7 @@ def run_user(case):
     else:
         raise KeyError(where)
     obj = {'body': 1, 'hook': 1, 'hook_nested': [1], 'hook_union': 1, 'validator': 1, 'validator_nested': {'a': 1}, 'validator_and': 1,
-           'isequal': 1}[where]
+           'isequal': 1, 'repr': ReprRaises(), 'repr_nested': [ReprRaises()]}[where]
     conf = conf_of(case.get('conf', 'default'))
     out = {}
 
@@ -352,12 +360,19 @@ def run_user(case):
             raise the_exc
         return x
     f.__annotations__ = {'x': hint, 'return': hint}
+    if where.startswith('repr'):
+        f.__annotations__ = {'x': hint}
     try:
         g = beartype(conf=conf)(f)
     except BaseException as e:   # noqa
         return {'decor_failed': describe(e)}
     out['call'] = same(lambda: g(obj))
     out['call_again'] = same(lambda: g(obj))          # memoised state must not change the answer
+    if where.startswith('repr'):
+        # only the entry points that describe a rejection reach repr()
+        out['die_if_unbearable'] = same(lambda: die_if_unbearable(obj, hint, conf=conf))
+        out['TypeHint_die'] = same(lambda: TypeHint(hint).die_if_unbearable(obj))
+        return out
     if where != 'body':
         out['is_bearable'] = same(lambda: is_bearable(obj, hint, conf=conf))
         out['die_if_unbearable'] = same(lambda: die_if_unbearable(obj, hint, conf=conf))
